@@ -6,6 +6,8 @@ import (
 	"encoding/json"
 	"fmt"
 	"math/rand"
+	"os"
+	"path/filepath"
 	"strings"
 
 	"grol.io/grol/object"
@@ -353,6 +355,24 @@ func checkC04(c *Ctx) {
 		cases = append(cases, in)
 		c.Case("pinned:"+strings.Join(in, "\n"), true)
 	}
+	// 6. world sessions (c04_world.go): wrappers of the extensions that depend on stdin, clock, random source, files, images
+	worldFrom := len(cases)
+	for i, in := range memoWorldSessions() {
+		a, err := runMemoWorld(filepath.Join(c.Scratch(), "memoworld"), i, in, memoWorldStdin, false)
+		if err != nil {
+			c.Infra(err)
+			return
+		}
+		b, err := runMemoWorld(filepath.Join(c.Scratch(), "memoworld"), i, in, memoWorldStdin, true)
+		if err != nil {
+			c.Infra(err)
+			return
+		}
+		ecs = append(ecs, equivCase{ID: len(cases), A: a, B: b})
+		cases = append(cases, in)
+		c.Case("world:"+strings.Join(in, "\n"), true)
+	}
+	c.Cov("world_sessions", len(cases)-worldFrom)
 	vs, err := equivValidate(c, ecs)
 	if err != nil {
 		c.Infra(err)
@@ -366,6 +386,10 @@ func checkC04(c *Ctx) {
 		}
 		if v.OK {
 			c.AddTraces(1)
+			continue
+		}
+		if i >= worldFrom {
+			c.Fail("memo-world-dependent-call-cached", describeDiff(ecs[i].A, ecs[i].B, v.At), map[string]any{"check": "memoworld", "inputs": in})
 			continue
 		}
 		c.Fail(memoSignature(in), describeDiff(ecs[i].A, ecs[i].B, v.At), map[string]any{"check": "memo", "inputs": in})
@@ -385,6 +409,19 @@ func replayC04(rp map[string]any) (bool, string) {
 	b, _ := json.Marshal(rp["inputs"])
 	_ = json.Unmarshal(b, &inputs)
 	x, y := runMemoPair(inputs)
+	if rp["check"] == "memoworld" {
+		dir, err := os.MkdirTemp("", "verif-C04-replay-")
+		if err != nil {
+			return false, err.Error()
+		}
+		defer os.RemoveAll(dir)
+		var e1, e2 error
+		x, e1 = runMemoWorld(dir, 0, inputs, memoWorldStdin, false)
+		y, e2 = runMemoWorld(dir, 0, inputs, memoWorldStdin, true)
+		if e1 != nil || e2 != nil {
+			return false, fmt.Sprint("infrastructure: ", e1, e2)
+		}
+	}
 	for i := range x {
 		if i >= len(y) || x[i] != y[i] {
 			return false, describeDiff(x, y, i+1)
